@@ -1077,12 +1077,18 @@ def run(ctx):
     ctx.observe("geometry_kinds_breaking_the_transpose",
                 sorted({gkey(c["dg"]) for c in lin if not c["coded_is_transpose"] and gkey(c["rg"]) == "cont1d"}
                        | {gkey(c["rg"]) for c in lin if not c["coded_is_transpose"] and gkey(c["dg"]) == "cont1d"}))
-    for c in lin:
-        check_lin_case(ctx, c)
-    nseq = run_seq(ctx, lin)
-    nseq += run_seq2(ctx, lin)
-    from cuqiverif.c07_edit import run_edit
-    nseq += run_edit(ctx, lin)
+    # (the TLC runs of part SEQE go on in the background while the parts before it are replayed)
+    from cuqiverif.c07_edit import run_edit, start_tlc, wait_tlc
+    started = start_tlc(ctx)
+    try:
+        for c in lin:
+            check_lin_case(ctx, c)
+        nseq = run_seq(ctx, lin)
+        nseq += run_seq2(ctx, lin)
+    except BaseException:
+        wait_tlc(started)
+        raise
+    nseq += run_edit(ctx, lin, started)
     for c in conv:
         (check_conv1 if c["kind"] == "conv1" else check_conv2)(ctx, c)
     named = named_problems(tier)
